@@ -102,6 +102,18 @@ def schedule(draw: Any, *, max_callers: int = 8, faults: bool = True, big_queue:
                            "hops": draw(st.integers(0, 2)), "frame": fr, "labels": ["foreign:" + kind], "auto_label": True})
         if sc:
             case["script"] = sc
+    if draw(st.integers(0, 2)) == 0:  # arbitrary third-party packets overheard at generated instants (in every state)
+        from vf.env.thinfsm import overheard_pool
+
+        pool = overheard_pool()
+        ov = []
+        for _ in range(draw(st.integers(1, 6))):
+            fr = pool[draw(st.integers(0, len(pool) - 1))]
+            m = draw(st.sampled_from((None, None, "01", "02", "08", "FC", "F9", "FA", "21")))
+            if m is not None and len(fr) >= 48:  # an index / domain byte where the code may expect none
+                fr = fr[:46] + m + fr[48:]
+            ov.append({"t": draw(st.sampled_from(CALL_TIMES)) + draw(st.sampled_from(DELAYS)), "hops": draw(st.integers(0, 2)), "frame": fr})
+        case["overheard"] = ov
     if faults and draw(st.integers(0, 2)) == 0:
         fl = []
         for _ in range(draw(st.integers(1, 3))):
@@ -149,6 +161,8 @@ def classify(case: dict) -> list[str]:
         out.append("sched:2+priorities")
     if case.get("foreign") or case.get("script"):
         out.append("sched:foreign")
+    if case.get("overheard"):
+        out.append("sched:overheard-third-party")
     if any(a.get("dup") for f in fates.values() for a in (f.get("echo"), f.get("reply")) if a):
         out.append("sched:duplicate")
     out.append(f"qos-mode:{case.get('disable_qos')}")
